@@ -109,6 +109,7 @@ def check_extend_sites(ctx, rep, rule):
 
 def run(ctx, rep):
     prog = ctx.prog
+    wiring_rule(ctx, rep, "C17")
     for r, tx in (("C17.a", "binary search only on vectors sorted by the searched key"), ("C17.b", "BlobType bucket agreement"),
                   ("C17.c", "only unmarked packs feed an index"), ("C17.d", "total_size accounting"), ("C17.e", "reduced index modes"),
                   ("C17.f", "an unreadable index file fails index construction")):
